@@ -152,6 +152,13 @@ def gen_matrix(spec: dict) -> torch.Tensor:
         M = torch.randn(m, n, generator=g, dtype=dt)
         v = torch.rand(m, generator=g, dtype=dt) + 0.1
         M = M - torch.outer(v, (v @ M)) / (v @ v)
+    elif kind == "imbstationary":  # Pareto-stationary (v > 0, v^T M = 0) AND imbalanced: row norms log-uniform over
+        # `decades` (default 1.5), so the uniform combination (the mean) is far from the min-norm point 0
+        M = torch.randn(m, n, generator=g, dtype=dt)
+        v = torch.rand(m, generator=g, dtype=dt) + 0.1
+        M = M - torch.outer(v, (v @ M)) / (v @ v)
+        d = 10.0 ** (spec.get("decades", 1.5) * torch.rand(m, generator=g, dtype=dt))
+        M = d.unsqueeze(1) * M
     elif kind == "nonconflict":  # all pairwise inner products >= 0
         M = torch.rand(m, n, generator=g, dtype=dt) + 0.05
     elif kind == "ternary":
